@@ -576,8 +576,21 @@ type fsCrashState struct {
 	// removed the sources from the directory; from here on a process crash must not show them.
 	committed           bool
 	removeFaultsAtMerge int
+	faultsAtMerge       int
+	lastCommitted       bool
 	K                   int
 	fin                 bool
+}
+
+// faultsNow counts every fault injected so far.
+func (st *fsCrashState) faultsNow() int {
+	st.r.mu.Lock()
+	defer st.r.mu.Unlock()
+	n := 0
+	for _, v := range st.r.FaultCt {
+		n += v
+	}
+	return n
 }
 
 // removeFaults counts the injected failures of os.Remove so far.
@@ -687,7 +700,10 @@ func (st *fsCrashState) checkImage(kind, desc string, img *simos.FS) {
 			// (the removal becomes durable with the directory fsyncs of Update / TombstoneFile).
 			// (An injected failure of one of Update's removals keeps the window open: the source
 			// then stays until TombstoneFile removes it, which is the same missing atomicity.)
-			inWindow := st.merging && !(st.committed && kind == "process-crash" && st.removeFaults() == st.removeFaultsAtMerge)
+			// For a power loss the same holds once Update has returned, provided no fault was
+			// injected since the merge began: Update fsyncs the directory after its removals (a
+			// swallowed fsync failure leaves them volatile until TombstoneFile's fsync).
+			inWindow := st.merging && !(st.committed && ((kind == "process-crash" && st.removeFaults() == st.removeFaultsAtMerge) || st.faultsNow() == st.faultsAtMerge))
 			if !inWindow && !(st.cleanupFailed && kind == "power-loss") {
 				k = "duplicate-rows-" + kind
 				if resurrected {
@@ -726,10 +742,10 @@ func (st *fsCrashState) crashPoint() {
 	}
 	fs := simos.Current
 	ver, _ := fs.Counters()
-	if ver == st.lastVer {
-		return
+	if ver == st.lastVer && st.committed == st.lastCommitted {
+		return // nothing changed on disk, and the merge has not passed its commit point either
 	}
-	st.lastVer = ver
+	st.lastVer, st.lastCommitted = ver, st.committed
 	st.checkImage("process-crash", "volatile view", fs.VolatileImage())
 	ops, dirty := fs.PendingDirOps()
 	if ops == 0 {
@@ -824,7 +840,7 @@ func runFsCrash(r *Run) {
 			case "flush":
 				eng.Flush(context.Background())
 			case "merge":
-				st.merging, st.committed, st.removeFaultsAtMerge = true, false, st.removeFaults()
+				st.merging, st.committed, st.removeFaultsAtMerge, st.faultsAtMerge = true, false, st.removeFaults(), st.faultsNow()
 				_, err := eng.Merge(context.Background())
 				st.merging = false
 				if err == nil {
